@@ -71,7 +71,7 @@ where CL03<CS>: Scheme<PubKey = CL03PublicKey, PrivKey = CL03SecretKey>, CS::Has
     let maxn = if env.thorough() { 3 } else { 2 };
     let w: World<CS> = World::generate(66);
     let items = collect::<CS>(env, &w, maxn, "c17");
-    env.ctx.set_rule("every honest issuance proof (all non-empty hidden subsets, + one with trusted party) and signature proof (all subsets), n <= 2 (thorough 3). In the JSON view: (i) every object shaped {value, randomness} and (ii) every ordered pair of integer leaves (quick: sibling pairs under one parent; thorough: all ordered pairs for the plain items with n <= 2, sibling pairs otherwise) is tested as an opening (V, R): for every public base pair (g, h, N) in {(a_i, b, N)} u {(g_i, h_c, N)} u {(g_i', h', N') of the trusted key} and every secret x the prover holds (hidden m_i, e, s, v, r): V != g^x * h^R; V * g^(-R) != v; the full-vector opening V = prod g_i^{m_i} * h^R with revealed attributes known; no leaf equals x, c*x or (1+c)*x for a hidden attribute x and a challenge c the recipient has or can recompute; and the dictionary attack with candidates {true value, true value + 1}: the test must not single out the true candidate; sibling responses must not differ by challenge * (m_i - m_j); inside every embedded range proof no product / quotient of two of the commitments E, E', E_a_1, E_a_2, E_b_1, E_b_2 equals g^y for y in {x_a1^2, x_a2, x_b1^2, x_b2, x_a1, x_b1, 2^T x - aa, bb - 2^T x} or a sum / difference of two of them (true secret x versus x + 1). Hidden-position lists are also given in non-ascending order. State = (proof, leaf pair); non-trivial = at least one modular recomputation against a real serialized proof.");
+    env.ctx.set_rule("every honest issuance proof (all non-empty hidden subsets, + one with trusted party) and signature proof (all subsets), n <= 2 (thorough 3). In the JSON view: (i) every object shaped {value, randomness} and (ii) every ordered pair of integer leaves (quick: sibling pairs under one parent; thorough: for the plain items with n <= 2 additionally every (group-element-sized leaf, any leaf) pair across sub-proofs) is tested as an opening (V, R): for every public base pair (g, h, N) in {(a_i, b, N)} u {(g_i, h_c, N)} u {(g_i', h', N') of the trusted key} and every secret x the prover holds (hidden m_i, e, s, v, r): V != g^x * h^R; V * g^(-R) != v; the full-vector opening V = prod g_i^{m_i} * h^R with revealed attributes known; no leaf equals x, c*x or (1+c)*x for a hidden attribute x and a challenge c the recipient has or can recompute; and the dictionary attack with candidates {true value, true value + 1}: the test must not single out the true candidate; sibling responses must not differ by challenge * (m_i - m_j); inside every embedded range proof no product / quotient of two of the commitments E, E', E_a_1, E_a_2, E_b_1, E_b_2 equals g^y for y in {x_a1^2, x_a2, x_b1^2, x_b2, x_a1, x_b1, 2^T x - aa, bb - 2^T x} or a sum / difference of two of them (true secret x versus x + 1). Hidden-position lists are also given in non-ascending order. State = (proof, leaf pair); non-trivial = at least one modular recomputation against a real serialized proof.");
     par_for(&items, |_, it| {
         if !env.want(&it.id) || env.ctx.out_of_time() { return; }
         let n = it.n;
@@ -83,7 +83,10 @@ where CL03<CS>: Scheme<PubKey = CL03PublicKey, PrivKey = CL03SecretKey>, CS::Has
         for a in &leaves { for b in &leaves {
             if a == b { continue; }
             let siblings = a.len() == b.len() && a[..a.len() - 1] == b[..b.len() - 1];
-            if (env.thorough() && it.n <= 2 && plain_item) || siblings { pairs.push((a.clone(), b.clone())); }
+            // thorough: every leaf as randomness against every leaf that can be a commitment value (a group element: within 64
+            // bits of the modulus length), across sub-proofs
+            let cross = env.thorough() && it.n <= 2 && plain_item && { let v = val(a); v > 0 && v.significant_bits() + 64 >= w.pk.N.significant_bits() && v.significant_bits() <= w.cpk_own.N.significant_bits().max(w.pk.N.significant_bits()) };
+            if cross || siblings { pairs.push((a.clone(), b.clone())); }
         } }
         // public base pairs
         let mut bases: Vec<(String, Integer, Integer, Integer)> = Vec::new();
